@@ -159,6 +159,18 @@ func fullTypes(v2 bool) []vtype {
 	return r
 }
 
+// mediumTypes: selected {1,3} x {offline, leader (+ failed-only for V1)} x all fees, addresses, top-ups
+func mediumTypes(v2 bool) []vtype {
+	var r []vtype
+	for _, t := range fullTypes(v2) {
+		if t.Sel == 0 || t.St == 2 {
+			continue
+		}
+		r = append(r, t)
+	}
+	return r
+}
+
 // reduced menu for the many-validators layer: arithmetic-relevant representatives
 var reducedTypes = []vtype{
 	{Sel: 1, St: 1, Fee: 0, Addr: 0, Top: 1}, // online, 1 block, own shard-0 address, top-up 5
@@ -357,7 +369,13 @@ type runner struct {
 	c *mc.Ctx
 }
 
-func (rn *runner) run(r *rig, v2 bool, s vset, e econ) {
+// acc collects coverage of one task locally (flushed once per validator set).
+type acc struct {
+	evals, nontrivial int64
+	outcomes          map[string]struct{}
+}
+
+func (rn *runner) run(r *rig, v2 bool, s vset, e econ, a *acc) {
 	c := rn.c
 	ver := "V1"
 	if v2 {
@@ -371,6 +389,7 @@ func (rn *runner) run(r *rig, v2 bool, s vset, e econ) {
 	r.totalTop.SetInt64(0)
 	sumFees := int64(0)
 	offlineWithBlocks, metaRcv := false, false
+	var offIdx []int // validators the creator classifies offline although they signed blocks
 	for i, v := range s {
 		st := statusVals[v.T.St]
 		vi := &state.ValidatorInfo{
@@ -382,8 +401,15 @@ func (rn *runner) run(r *rig, v2 bool, s vset, e econ) {
 		r.topUps[string(vi.PublicKey)] = topUpVals[v.T.Top]
 		r.totalTop.Add(r.totalTop, topUpVals[v.T.Top])
 		sumFees += feeVals[v.T.Fee]
-		if st[0] == 0 && st[1] == 0 && selVals[v.T.Sel] > 0 {
+		// "offline" as the creator under test classifies it: V2 and V1 after rewards-fix-1: never
+		// succeeded as leader nor validator; V1 before the fix: LeaderSuccess==0 && ValidatorFailure==0
+		off := st[0] == 0 && st[1] == 0
+		if !v2 && !e.Deleg {
+			off = st[0] == 0 && st[2] == 0
+		}
+		if off && selVals[v.T.Sel] > 0 {
 			offlineWithBlocks = true
+			offIdx = append(offIdx, i)
 		}
 		if v.T.Addr >= 3 {
 			metaRcv = true
@@ -423,17 +449,25 @@ func (rn *runner) run(r *rig, v2 bool, s vset, e econ) {
 		cr = r.v2
 	}
 	// ---- run
-	c.Eval(1)
-	out := caseOut{Version: ver, Set: s.String(), Econ: e.String(), Expected: expected.String()}
+	a.evals++
+	var txLines []string
+	mkOut := func(sum *big.Int, what string) caseOut {
+		o := caseOut{Version: ver, Set: s.String(), Econ: e.String(), Expected: expected.String(), What: what}
+		o.Txs = append([]string{}, txLines...)
+		sort.Strings(o.Txs)
+		if sum != nil {
+			o.Sum = sum.String()
+		}
+		return o
+	}
 	type rep struct {
 		S vset
 		E econ
 		V bool
 	}
+	var sumForOut *big.Int
 	fail := func(sig, what string) {
-		o := out
-		o.What = what
-		c.ViolationR(ver+":"+sig, len(s)*1000+len(o.Txs), o, rep{s, e, v2})
+		c.ViolationR(ver+":"+sig, len(s)*1000+len(txLines), mkOut(sumForOut, what), rep{s, e, v2})
 	}
 	var mbs block.MiniBlockSlice
 	var err error
@@ -460,7 +494,7 @@ func (rn *runner) run(r *rig, v2 bool, s vset, e econ) {
 				continue
 			}
 			tx := th.(*rewardTx.RewardTx)
-			out.Txs = append(out.Txs, fmt.Sprintf("%s <- %s (miniblock to shard %d)", rcvName(tx.RcvAddr), tx.Value, m.ReceiverShardID))
+			txLines = append(txLines, rcvName(tx.RcvAddr)+" <- "+tx.Value.String()+" (miniblock to shard "+fmt.Sprint(m.ReceiverShardID)+")")
 			sum.Add(sum, tx.Value)
 			isProt := bytes.Equal(tx.RcvAddr, protocolAddr)
 			who := "validator"
@@ -486,17 +520,32 @@ func (rn *runner) run(r *rig, v2 bool, s vset, e econ) {
 			}
 		}
 	}
-	sort.Strings(out.Txs)
-	out.Sum = sum.String()
+	sumForOut = sum
 	for _, b := range bads {
 		fail(b.sig, b.what)
 	}
 	tags := ""
 	if offlineWithBlocks {
-		tags += ":offline-validator-with-signed-blocks"
+		tags += ":validator-classified-offline-has-signed-blocks"
 	}
 	if metaRcv {
 		tags += ":metachain-reward-address"
+	}
+	if !v2 && sum.Cmp(expected) > 0 {
+		// signature refinement only (never decides the verdict): is the excess exactly the V1
+		// block reward (RewardsPerBlock/consensusSize * selected) of the offline-classified validators?
+		share := new(big.Int)
+		for _, i := range offIdx {
+			cs := int64(consensusShard)
+			if s[i].G == 2 {
+				cs = consensusMeta
+			}
+			per := new(big.Int).Div(rpb, big.NewInt(cs))
+			share.Add(share, per.Mul(per, big.NewInt(int64(selVals[s[i].T.Sel]))))
+		}
+		if share.Sign() > 0 && new(big.Int).Sub(sum, expected).Cmp(share) == 0 {
+			tags = ":by-exactly-the-block-rewards-of-validators-classified-offline"
+		}
 	}
 	switch d := sum.Cmp(expected); {
 	case d > 0:
@@ -504,9 +553,16 @@ func (rn *runner) run(r *rig, v2 bool, s vset, e econ) {
 	case d < 0:
 		fail("sum-below-amount-to-distribute"+tags, fmt.Sprintf("sum %s < %s (missing %s)", sum, expected, new(big.Int).Sub(expected, sum)))
 	}
-	if nProt != 1 {
+	switch {
+	case nProt > 1:
 		fail("protocol-sustainability-tx-count", fmt.Sprintf("%d transactions to the protocol sustainability address", nProt))
-	} else {
+	case nProt == 0:
+		// acceptable only when there is nothing for the protocol (a zero-value tx must not exist);
+		// the sum check above already demands that nothing is missing
+		if g := cr.GetProtocolSustainabilityRewards(); g.Sign() != 0 {
+			fail("GetProtocolSustainabilityRewards-nonzero-without-protocol-tx", fmt.Sprintf("getter %s, no tx", g))
+		}
+	default:
 		if g := cr.GetProtocolSustainabilityRewards(); g.Cmp(protVal) != 0 {
 			fail("GetProtocolSustainabilityRewards-differs-from-protocol-tx", fmt.Sprintf("getter %s, tx %s", g, protVal))
 		}
@@ -517,12 +573,12 @@ func (rn *runner) run(r *rig, v2 bool, s vset, e econ) {
 	// ---- coverage
 	dust := protVal != nil && protVal.Cmp(e.P) > 0
 	if dust && nVal >= 2 {
-		c.Nontrivial(fmt.Sprintf("%s|%v|%v", ver, s, e))
+		a.nontrivial++
 		if c.WantSample() {
-			c.Sample(out)
+			c.Sample(mkOut(sum, ""))
 		}
 	}
-	c.Outcome(fmt.Sprintf("%s|mbs=%d|valTxs=%d|dust=%v|offline=%v|meta=%v", ver, len(mbs), nVal, dust, offlineWithBlocks, metaRcv))
+	a.outcomes[ver+"|mbs="+fmt.Sprint(len(mbs), "|valTxs=", nVal, "|dust=", dust, "|offline=", offlineWithBlocks, "|meta=", metaRcv)] = struct{}{}
 }
 
 func rcvName(a []byte) string {
@@ -643,10 +699,12 @@ func main() {
 			_ = pprof.StartCPUProfile(f)
 			defer pprof.StopCPUProfile()
 		}
-		if c.Quick() {
-			c.Deadline = time.Now().Add(80 * time.Second)
-		} else {
-			c.Deadline = time.Now().Add(14 * time.Minute)
+		own := time.Now().Add(80 * time.Second)
+		if !c.Quick() {
+			own = time.Now().Add(14 * time.Minute)
+		}
+		if own.Before(c.Deadline) {
+			c.Deadline = own // an explicit shorter --deadline wins
 		}
 		c.Rule = "non-trivial = a consistent input for which >= 2 validator reward transactions are created and the protocol sustainability transaction receives remainders/unassignable rewards (its value exceeds the configured protocol reward)"
 		c.Assumptions = []string{
@@ -668,17 +726,25 @@ func main() {
 			if err := json.Unmarshal(c.ReplayData, &rd); err != nil {
 				c.Fatal("bad replay data: %v", err)
 			}
-			runr.run(newRig(), rd.V, rd.S, rd.E)
+			a := &acc{outcomes: map[string]struct{}{}}
+			runr.run(newRig(), rd.V, rd.S, rd.E, a)
+			c.Eval(a.evals)
 			return
 		}
-		blocks := allBlocks()
+		// three economics products: full = the complete product of the menus; core and tiny are
+		// sub-products used where the validator-set dimension is large
 		fullE := func(v2 bool) []econ {
-			return econList(v2, blocks, rVals, pVals, lExtraVals, factorVals, gradientVals)
+			return econList(v2, allBlocks(), rVals, pVals, lExtraVals, factorVals, gradientVals)
 		}
-		// economics sub-product used where the validator-set dimension is large
 		coreBlocks := [][3]uint64{{10, 10, 10}, {1, 10, 10}, {10, 1, 0}, {1, 1, 1}}
 		coreE := func(v2 bool) []econ {
 			return econList(v2, coreBlocks, []*big.Int{rVals[2], rVals[3]}, []*big.Int{pVals[0], pVals[1]}, lExtraVals, []float64{0.25, 1}, gradientVals)
+		}
+		tinyE := func(v2 bool) []econ {
+			return econList(v2, [][3]uint64{{10, 10, 10}, {1, 10, 1}}, []*big.Int{rVals[2], rVals[3]}, []*big.Int{pVals[0], pVals[1]}, lExtraVals[:1], []float64{0.25, 1}, gradientVals[:1])
+		}
+		oneFG := func(v2 bool) []econ { // complete blocks x rewards x protocol x leader-fee product, one top-up curve
+			return econList(v2, allBlocks(), rVals, pVals, lExtraVals, []float64{0.25}, gradientVals[1:])
 		}
 		var layers []layer
 		for _, v2 := range []bool{true, false} {
@@ -687,13 +753,19 @@ func main() {
 				vn = "V2"
 			}
 			types := fullTypes(v2)
-			layers = append(layers, layer{vn + ": <=1 validator (full type product, any group) x full economics product", v2, setsFew(types, 1), fullE(v2)})
+			med := mediumTypes(v2)
 			if c.Quick() {
-				layers = append(layers, layer{vn + ": <=2 validators per group from the 5-type reduced menu x full economics product", v2, setsMany(2), fullE(v2)})
+				layers = append(layers,
+					layer{vn + ": <=1 validator (full type product, any group) x core economics", v2, setsFew(types, 1), coreE(v2)},
+					layer{vn + ": <=2 validators per group from the 5-type reduced menu x tiny economics", v2, setsMany(2), tinyE(v2)},
+					layer{vn + ": <=1 validator per group from the reduced menu x full blocks/rewards/protocol/leader-fee product (one top-up curve)", v2, setsMany(1), oneFG(v2)})
 			} else {
-				layers = append(layers, layer{vn + ": <=2 validators (full type product, any groups) x core economics product", v2, setsFew(types, 2), coreE(v2)})
-				layers = append(layers, layer{vn + ": <=3 validators per group from the 5-type reduced menu x core economics product", v2, setsMany(3), coreE(v2)})
-				layers = append(layers, layer{vn + ": <=2 validators per group from the 5-type reduced menu x full economics product", v2, setsMany(2), fullE(v2)})
+				layers = append(layers,
+					layer{vn + ": <=1 validator (full type product, any group) x full economics product", v2, setsFew(types, 1), fullE(v2)},
+					layer{vn + ": <=2 validators (medium type product, any groups) x tiny economics", v2, setsFew(med, 2), tinyE(v2)},
+					layer{vn + ": <=3 validators per group from the 5-type reduced menu x tiny economics", v2, setsMany(3), tinyE(v2)},
+					layer{vn + ": <=2 validators per group from the reduced menu x core economics", v2, setsMany(2), coreE(v2)},
+					layer{vn + ": <=1 validator per group from the reduced menu x full economics product", v2, setsMany(1), fullE(v2)})
 			}
 		}
 		var bound []string
@@ -712,13 +784,22 @@ func main() {
 				r := rigPool.Get().(*rig)
 				defer rigPool.Put(r)
 				var j, sk int64
+				a := &acc{outcomes: map[string]struct{}{}}
 				for _, e := range l.econs {
 					if !consistent(l.sets[i], e) {
 						sk++
 						continue
 					}
 					j++
-					runr.run(r, l.v2, l.sets[i], e)
+					runr.run(r, l.v2, l.sets[i], e, a)
+				}
+				c.Eval(a.evals)
+				c.Count("nontrivial_inputs", a.nontrivial)
+				if a.nontrivial > 0 {
+					c.Nontrivial(fmt.Sprint(l.v2, l.sets[i]))
+				}
+				for k := range a.outcomes {
+					c.Outcome(k)
 				}
 				mu.Lock()
 				judged += j
